@@ -34,6 +34,54 @@ fn gen_value(t: &mut Tape, depth: usize) -> Value {
 struct MNode {
     attrs: BTreeMap<String, Value>,
     edges: BTreeMap<usize, BTreeMap<String, Value>>,
+    /// identity of every stored value, built by the generator (not by the library's `==`)
+    attr_keys: BTreeMap<String, String>,
+    edge_keys: BTreeMap<(usize, String), String>,
+}
+
+/// A value together with a key that is equal exactly for equal values: scalars by content, lists
+/// element-wise, sets as sorted unique keys, syntax nodes by their pre-order number in the tree,
+/// graph nodes by index.
+fn gen_keyed(t: &mut Tape, depth: usize, syn: &[(tree_sitter_graph::graph::SyntaxNodeRef, usize)], gnodes: &[GraphNodeRef]) -> (Value, String) {
+    let k = if depth >= 2 { t.choose(6) } else { t.choose(8) };
+    match k {
+        0 => (Value::Null, "null".into()),
+        1 => {
+            let b = t.chance(1, 2);
+            (Value::Boolean(b), format!("b:{}", b))
+        }
+        2 => {
+            let i = *t.pick(&[0u32, 1, 2, 7, u32::MAX]);
+            (Value::Integer(i), format!("i:{}", i))
+        }
+        3 => {
+            let s = t.pick(&["", "a", "b", "é", "a b"]).to_string();
+            (Value::String(s.clone()), format!("s:{:?}", s))
+        }
+        4 if !syn.is_empty() => {
+            let (r, pre) = syn[t.choose(syn.len())].clone();
+            (Value::SyntaxNode(r), format!("syn:{}", pre))
+        }
+        5 if !gnodes.is_empty() => {
+            let i = t.choose(gnodes.len());
+            (Value::GraphNode(gnodes[i]), format!("gn:{}", i))
+        }
+        4 | 5 => (Value::Null, "null".into()),
+        6 => {
+            let n = t.choose(3);
+            let items: Vec<(Value, String)> = (0..n).map(|_| gen_keyed(t, depth + 1, syn, gnodes)).collect();
+            let key = format!("[{}]", items.iter().map(|x| x.1.clone()).collect::<Vec<_>>().join(","));
+            (Value::List(items.into_iter().map(|x| x.0).collect()), key)
+        }
+        _ => {
+            let n = t.choose(3);
+            let items: Vec<(Value, String)> = (0..n).map(|_| gen_keyed(t, depth + 1, syn, gnodes)).collect();
+            let mut keys: Vec<String> = items.iter().map(|x| x.1.clone()).collect();
+            keys.sort();
+            keys.dedup();
+            (Value::Set(items.into_iter().map(|x| x.0).collect::<BTreeSet<_>>()), format!("{{{}}}", keys.join(",")))
+        }
+    }
 }
 
 fn fail(sig: &str, msg: String, log: &[String]) -> CaseOutcome {
@@ -82,7 +130,24 @@ fn scan_graph(graph: &Graph, model: &[MNode], log: &[String]) -> Option<CaseOutc
 
 /// Graph / GraphNode / Edge / Attributes history.
 fn graph_history(t: &mut Tape) -> CaseOutcome {
+    // syntax nodes to use as attribute values: nested nodes of one kind that start at the same
+    // position (`a + b + c`, `f()()`, `x.y.z`) are different values
+    let tree = crate::pysrc::parse("a + b + c\nf()()\nx.y.z\n");
     let mut graph = Graph::new();
+    let mut syn: Vec<(tree_sitter_graph::graph::SyntaxNodeRef, usize)> = vec![];
+    {
+        let mut stack = vec![tree.root_node()];
+        let mut pre = 0usize;
+        while let Some(n) = stack.pop() {
+            if n.is_named() {
+                syn.push((graph.add_syntax_node(n), pre));
+            }
+            pre += 1;
+            for i in (0..n.child_count()).rev() {
+                stack.push(n.child(i).unwrap());
+            }
+        }
+    }
     let mut model: Vec<MNode> = vec![];
     let mut log: Vec<String> = vec![];
     let nops = 1 + t.choose(200);
@@ -172,15 +237,19 @@ fn graph_history(t: &mut Tape) -> CaseOutcome {
                 let src = t.choose(model.len());
                 let dst = t.choose(model.len().min(sink_span));
                 let name = *t.pick(&NAMES);
-                let value = gen_value(t, 0);
                 let refs: Vec<GraphNodeRef> = graph.iter_nodes().collect();
+                let (value, key) = gen_keyed(t, 0, &syn, &refs);
+                let node_m = &mut model[src];
+                let (edges_m, edge_keys_m) = (&mut node_m.edges, &mut node_m.edge_keys);
+                let prev_key = edge_keys_m.get(&(dst, name.to_string())).cloned();
                 let got = graph[refs[src]].get_edge_mut(refs[dst]);
-                match (got, model[src].edges.get_mut(&dst)) {
+                match (got, edges_m.get_mut(&dst)) {
                     (Some(e), Some(m)) => {
                         let res = e.attributes.add(Identifier::from(name), value.clone());
                         log.push(format!("get_edge_mut {}->{} add {}={:?} -> {:?}", src, dst, name, value, res.is_ok()));
                         let prev = m.insert(name.to_string(), value.clone());
-                        let expect_err = matches!(&prev, Some(p) if p != &value);
+                        let expect_err = matches!(&prev_key, Some(p) if p != &key);
+                        edge_keys_m.insert((dst, name.to_string()), key.clone());
                         if expect_err {
                             conflict = true;
                         }
@@ -207,12 +276,13 @@ fn graph_history(t: &mut Tape) -> CaseOutcome {
                 // node attribute add
                 let n = t.choose(model.len());
                 let name = *t.pick(&NAMES);
-                let value = gen_value(t, 0);
                 let refs: Vec<GraphNodeRef> = graph.iter_nodes().collect();
+                let (value, key) = gen_keyed(t, 0, &syn, &refs);
                 let res = graph[refs[n]].attributes.add(Identifier::from(name), value.clone());
                 log.push(format!("node {} attr add {}={:?} -> {:?}", n, name, value, res.is_ok()));
                 let prev = model[n].attrs.insert(name.to_string(), value.clone());
-                let expect_err = matches!(&prev, Some(p) if p != &value);
+                let prev_key = model[n].attr_keys.insert(name.to_string(), key.clone());
+                let expect_err = matches!(&prev_key, Some(p) if p != &key);
                 if expect_err {
                     conflict = true;
                 }
